@@ -17,15 +17,18 @@ import (
 	"os"
 	"os/exec"
 	"path/filepath"
+	"runtime"
 	"sort"
 	"strconv"
 	"strings"
 	"sync"
+	"sync/atomic"
 	"syscall"
 	"time"
 
 	"reservoir/cache"
 	"reservoir/metrics"
+	"reservoir/utils/verifhook"
 	"verifharness/core"
 	"verifharness/rig"
 )
@@ -381,7 +384,62 @@ func c12Run(b core.Batch, r *core.Recorder) {
 		c12concurrent(b, r, e, keys)
 	case "crash":
 		c12crash(b, r, e, keys)
+	case "republish":
+		c12republish(b, r, e)
 	}
+}
+
+// c12republish: a store / overwrite / delete lands exactly between the janitor's reading of the cache size and its
+// use of that number (hook janitor.size.read), in the expiry sweep and in the size check, on a cache with and without
+// a reachable limit. At the following quiescence the invariant must hold. This is the deterministic form of the
+// interleaving the concurrent histories reach only rarely.
+func c12republish(b core.Batch, r *core.Recorder, e c12env) {
+	defer verifhook.Set("janitor.size.read", nil)
+	n := 0
+	for _, limit := range []int64{1 << 40, 250} {
+		for _, prefix := range [][]c12op{{}, {{"S", 0}}, {{"S", 0}, {"S", 1}}, {{"P", 0}, {"S", 1}}, {{"L", 0}}} {
+			for _, during := range [][]c12op{{{"S", 2}}, {{"S", 0}}, {{"D", 0}}, {{"L", 2}}, {{"S", 2}, {"D", 1}}, {{"P", 2}}, {{"E", 0}}} {
+				n++
+				id := fmt.Sprintf("p%d", n)
+				cs := map[string]any{"id": id, "backend": e.backend, "limit": limit, "before_the_cycle": c12seqString(prefix), "between_size_read_and_use": c12seqString(during)}
+				if !r.Case(id, cs) {
+					continue
+				}
+				r.Eval(1)
+				ctx, cancel := context.WithCancel(context.Background())
+				metrics.Global.Cache.BytesCached.Set(0)
+				metrics.Global.Cache.CacheEntries.Set(0)
+				c, _ := rig.NewCache(ctx, rig.CacheOpts{Backend: e.backend, Dir: e.dir, Max: limit, Shards: 16, Interval: time.Hour})
+				ver := 0
+				for _, o := range prefix {
+					c12apply(c, o, &ver)
+				}
+				var fired atomic.Int64
+				verifhook.Set("janitor.size.read", func(any) {
+					if fired.Add(1) == 1 { // the cycle passes the point once per phase; act in the first
+						for _, o := range during {
+							c12apply(c, o, &ver)
+						}
+					}
+				})
+				c.VerifRunCleanupCycle()
+				verifhook.Set("janitor.size.read", nil)
+				c.Destroy()
+				c12quiesce()
+				o1 := c12observe(c, e, 3)
+				r.Count("changes_placed_between_size_read_and_use", fired.Load())
+				r.Nontrivial(e.backend, "republish", limit, c12seqString(prefix), c12seqString(during))
+				if fired.Load() == 0 {
+					r.NotJudged("hook-not-reached")
+				} else if len(o1.Diff) > 0 {
+					r.Violation("C12", fmt.Sprintf("C12:drift:%s:%s:change-between-janitor-size-read-and-publication", e.backend, c12limitClass(limit)),
+						fmt.Sprintf("%s before a cleanup cycle, %s while the janitor was between reading the size and publishing it: afterwards the reported size/count differ from what is stored (%v)", c12seqString(prefix), c12seqString(during), o1.Diff), cs, o1)
+				}
+				cancel()
+			}
+		}
+	}
+	r.Sample(map[string]any{"mode": "republish", "backend": e.backend, "what": "5 prefixes x 7 changes placed at the janitor.size.read hook x {no limit, limit 250}"})
 }
 
 // c12quiesce waits until the cleanup-run counter and the global gauges have been unchanged for 10 ms (bounded).
@@ -436,7 +494,35 @@ func c12concurrent(b core.Batch, r *core.Recorder, e c12env, keys int) {
 				}
 			}()
 		}
+		// cyclers: cleanup cycles (expiry sweep + size check, each republishing the size into the dashboard gauge)
+		// spin next to the workers, so that many republications overlap with stores and deletes
+		stopCyc := make(chan struct{})
+		var cyc sync.WaitGroup
+		var cycles atomic.Int64
+		for k := 0; k < b.Int("cyclers", 0); k++ {
+			cyc.Add(1)
+			go func() {
+				defer cyc.Done()
+				// a bounded number of cycles: the workers outlive the cyclers, so that a republication that
+				// overwrote (or double-counted) a concurrent change is not healed by a later cycle
+				for n := 0; n < 1+(round+k)%4; n++ {
+					select {
+					case <-stopCyc:
+						return
+					default:
+						for y := 0; y < (round*7+k)%13; y++ {
+							runtime.Gosched()
+						}
+						c.VerifRunCleanupCycle()
+						cycles.Add(1)
+					}
+				}
+			}()
+		}
 		wg.Wait()
+		close(stopCyc)
+		cyc.Wait()
+		r.Count("cleanup_cycles_overlapping_the_workers", cycles.Load())
 		c.Destroy() // stop the janitor
 		// quiescence: a cleanup cycle that was in progress when the janitor was told to stop still finishes (and
 		// moves the process-global gauges); wait until nothing moves any more
@@ -582,6 +668,11 @@ func c12Plan(tier string, seed int64) []core.Batch {
 		add("rnd-"+be+"-limit300", false, map[string]any{"mode": "random", "backend": be, "n": nRand, "keys": 3, "limit": 300, "shards": 2})
 		add("conc-"+be, true, map[string]any{"mode": "concurrent", "backend": be, "rounds": rounds, "keys": 3})
 		add("conc-"+be+"-limit300-janitor", true, map[string]any{"mode": "concurrent", "backend": be, "rounds": rounds, "keys": 3, "limit": 300, "interval_ms": 1, "shards": 2})
+		add("conc-"+be+"-cyclers", false, map[string]any{"mode": "concurrent", "backend": be, "rounds": rounds * 20, "keys": 3, "cyclers": 2, "ops": 12, "workers": 4, "shards": 2})
+		add("conc-"+be+"-limit300-cyclers", true, map[string]any{"mode": "concurrent", "backend": be, "rounds": rounds * 10, "keys": 3, "limit": 300, "cyclers": 2, "ops": 12, "workers": 4, "shards": 2})
+	}
+	for _, be := range []string{"memory", "file"} {
+		add("republish-"+be, false, map[string]any{"mode": "republish", "backend": be})
 	}
 	add("crash-file", false, map[string]any{"mode": "crash", "backend": "file", "n": crashes, "keys": 3})
 	sort.SliceStable(bs, func(i, k int) bool { return false })
@@ -594,7 +685,7 @@ func init() {
 		ID:    "C12",
 		Level: "exploration",
 		Rule: "operation sequences over {store 100B, store 4096B, store already-expired, empty store, store whose source fails after 50B, delete, get, update-metadata} x keys + cleanup cycle: " +
-			"all sequences up to the batch depth (bounded-exhaustive, split over parts), seeded random sequences of 6-80 ops, 8-worker concurrent histories checked after the join, and SIGKILL of a file cache followed by reopening its directory; " +
+			"all sequences up to the batch depth (bounded-exhaustive, split over parts), seeded random sequences of 6-80 ops, 8-worker concurrent histories checked after the join (alone, next to a 1 ms janitor, and next to 2-3 goroutines spinning cleanup cycles so that republications of the size into the dashboard gauge overlap the mutations), SIGKILL of a file cache followed by reopening its directory, and changes placed by a hook exactly between the janitor's reading of the cache size and its publication in the dashboard gauge; " +
 			"with an unlimited and a tiny size limit (store-triggered eviction). At the end of every sequence (and again after one cleanup cycle) truth = what Get returns for every key (+ directory listing for the file backend) is compared with the cache's byte/entry counters and the dashboard metrics. " +
 			"Non-trivial = distinct sequence containing at least one store; failing sequences are delta-debugged to a 1-minimal sequence whose normalised form is the signature.",
 		Assumptions: []string{
@@ -605,8 +696,8 @@ func init() {
 		Run:      c12Run,
 		Parallel: 12,
 		Floors: map[string]map[string]int64{
-			"quick":    {"sequences_ending_with_entries": 20000, "concurrent_ops": 50000, "dirty_dirs_reopened": 5},
-			"thorough": {"sequences_ending_with_entries": 400000, "concurrent_ops": 1000000, "dirty_dirs_reopened": 100},
+			"quick":    {"sequences_ending_with_entries": 20000, "concurrent_ops": 50000, "dirty_dirs_reopened": 5, "changes_placed_between_size_read_and_use": 100},
+			"thorough": {"sequences_ending_with_entries": 400000, "concurrent_ops": 1000000, "dirty_dirs_reopened": 100, "changes_placed_between_size_read_and_use": 100},
 		},
 	})
 }
